@@ -35,7 +35,7 @@ ASSUMPTIONS = ["NumPy matmul/vdot/kron/transposes on dense arrays of <= 4096 row
                "compression_ is judged after max_sweeps<=6 sweeps from a start whose virtual spaces can hold the target "
                "(1site) or with non-binding opts_svd (2site); tolerance 1e-10 relative (iterative method; observed <= 5e-15)"]
 
-CT = 5.0e3            # arithmetic tolerance: CT * eps * scale   (scale = product / sum of operand norms)
+CT = 1.0e3            # arithmetic tolerance: CT * eps * scale   (scale = product / sum of operand norms)
 SCALARS = (2.0, -0.5, 1.5 - 0.5j, 3, 0.25j, -1, -2.5, 0.75 + 1.25j)
 NONBINDING = ({}, {"D_total": 100000}, {"tol": 1e-15}, {"tol": 1e-15, "D_total": 5000}, {"D_block": 10000},
               {"tol_block": 1e-15}, {"D_total": 4096, "tol": 0, "D_block": 4096})
@@ -43,8 +43,8 @@ NONBINDING = ({}, {"D_total": 100000}, {"tol": 1e-15}, {"tol": 1e-15, "D_total":
 
 def plan(tier):
     if tier == "thorough":
-        return {"cases": 20000, "shards": 16, "budget_s": 800}
-    return {"cases": 1800, "shards": 8, "budget_s": 100}
+        return {"cases": 16000, "shards": 16, "budget_s": 800}
+    return {"cases": 1500, "shards": 8, "budget_s": 100}
 
 
 def floors(tier):
